@@ -49,31 +49,9 @@ func (eng *Engine) exec(fn *ssa.Function, in ssa.Instruction, env *Env) []*Env {
 		return eng.execIndexAddr(t, env)
 	case *ssa.Index:
 		// an element of a local table of functions ([...]func{f, g, h} ranged over): one of its entries
-		if fns := funcTableOf(t.X); len(fns) > 0 {
-			binds := funcTableBindings(t.X)
-			// a constant index selects exactly one slot
-			if iv := eng.val(env, t.Index); iv.K == KNum && len(iv.Set) == 1 {
-				if n, err := strconv.Atoi(iv.Set[0]); err == nil && n >= 0 && n < len(fns) {
-					a := AV{K: KFunc, Nil: nonNil, Fn: fns[n]}
-					if n < len(binds) && binds[n] != nil {
-						for _, b := range binds[n].Bindings {
-							a.Bind = append(a.Bind, eng.val(env, b))
-						}
-					}
-					env.vals[t] = a
-					return []*Env{env}
-				}
-			}
-			anyBound := false
-			for _, b := range binds {
-				if b != nil && len(b.Bindings) > 0 {
-					anyBound = true
-				}
-			}
-			if !anyBound {
-				env.vals[t] = AV{K: KFunc, Nil: nonNil, Fns: fns}
-				return []*Env{env}
-			}
+		if a, ok := eng.funcTableElem(env, t.X, t.Index); ok {
+			env.vals[t] = a
+			return []*Env{env}
 		}
 		env.vals[t] = eng.fromCF(env, defaultCF(t.Type(), 0), t.Type(), eng.instrKey(in))
 		return []*Env{env}
@@ -620,6 +598,15 @@ func (eng *Engine) execUnOp(t *ssa.UnOp, env *Env) []*Env {
 		}
 		return []*Env{env}
 	case token.MUL:
+		// an element of a slice-backed local table of functions read with a known index
+		if tbl, idx, _, ok := tableElem(t); ok {
+			if iv := eng.val(env, idx); iv.K == KNum && len(iv.Set) == 1 {
+				if a, ok := eng.funcTableElem(env, tbl, idx); ok && a.Fn != nil {
+					env.vals[t] = a
+					return []*Env{env}
+				}
+			}
+		}
 		var out []*Env
 		for _, le := range eng.deref(t, t.X, env, "pointer "+describe(t.X)) {
 			e := le.env
@@ -973,19 +960,109 @@ func (env *Env) gc(keep []AV) {
 
 // funcTableOf: v is the value of a local array literal whose every element is initialised exactly once,
 // in the literal's block, with a named function or method expression; returns those functions in order.
+// funcTableElem: the value of slot idx of the function table tbl: exactly one entry when idx is a known
+// constant, otherwise "one of them" when no slot carries bindings.
+func (eng *Engine) funcTableElem(env *Env, tbl, idx ssa.Value) (AV, bool) {
+	fns := funcTableOf(tbl)
+	if len(fns) == 0 {
+		return AV{}, false
+	}
+	binds := funcTableBindings(tbl)
+	if iv := eng.val(env, idx); iv.K == KNum && len(iv.Set) == 1 {
+		if n, err := strconv.Atoi(iv.Set[0]); err == nil && n >= 0 && n < len(fns) {
+			a := AV{K: KFunc, Nil: nonNil, Fn: fns[n]}
+			if n < len(binds) && binds[n] != nil {
+				for _, b := range binds[n].Bindings {
+					a.Bind = append(a.Bind, eng.val(env, b))
+				}
+			}
+			return a, true
+		}
+	}
+	for _, b := range binds {
+		if b != nil && len(b.Bindings) > 0 {
+			return AV{}, false
+		}
+	}
+	return AV{K: KFunc, Nil: nonNil, Fns: fns}, true
+}
+
+// tableAllocOf: the array allocation behind a table value: a load of the array, the array's address, or a
+// full slice of it ([]T{…} is lowered to new [n]T, element stores, slice).
+func tableAllocOf(v ssa.Value) *ssa.Alloc {
+	switch t := v.(type) {
+	case *ssa.Alloc:
+		if _, ok := t.Type().Underlying().(*types.Pointer).Elem().Underlying().(*types.Array); ok {
+			return t
+		}
+	case *ssa.UnOp:
+		if t.Op == token.MUL {
+			if al, ok := t.X.(*ssa.Alloc); ok {
+				return tableAllocOf(al)
+			}
+		}
+	case *ssa.Slice:
+		if t.Low == nil && t.High == nil && t.Max == nil {
+			if al, ok := t.X.(*ssa.Alloc); ok {
+				return tableAllocOf(al)
+			}
+		}
+	}
+	return nil
+}
+
+// readOnlySlice: the slice value is only indexed for reading, measured or ranged over.
+func readOnlySlice(sl *ssa.Slice) bool {
+	for _, r := range *sl.Referrers() {
+		switch r := r.(type) {
+		case *ssa.IndexAddr:
+			for _, rr := range *r.Referrers() {
+				switch x := rr.(type) {
+				case *ssa.UnOp:
+					if x.Op != token.MUL {
+						return false
+					}
+				case *ssa.DebugRef:
+				default:
+					return false
+				}
+			}
+		case *ssa.DebugRef:
+		case *ssa.Call:
+			if b, ok := r.Call.Value.(*ssa.Builtin); !ok || b.Name() != "len" {
+				return false
+			}
+		default:
+			return false
+		}
+	}
+	return true
+}
+
+// tableElem: in reads one element of a local table: table[i] on an array value, or *(&table[i]) on an
+// array address / a slice of one.
+func tableElem(in ssa.Instruction) (tbl, idx ssa.Value, elem ssa.Value, ok bool) {
+	switch t := in.(type) {
+	case *ssa.Index:
+		if tableAllocOf(t.X) != nil {
+			return t.X, t.Index, t, true
+		}
+	case *ssa.UnOp:
+		if t.Op == token.MUL {
+			if ia, isIA := t.X.(*ssa.IndexAddr); isIA && tableAllocOf(ia.X) != nil {
+				return ia.X, ia.Index, t, true
+			}
+		}
+	}
+	return nil, nil, nil, false
+}
+
 func funcTableOf(v ssa.Value) []*ssa.Function {
-	ld, ok := v.(*ssa.UnOp)
-	if !ok || ld.Op != token.MUL {
+	al := tableAllocOf(v)
+	if al == nil {
 		return nil
 	}
-	al, ok := ld.X.(*ssa.Alloc)
-	if !ok {
-		return nil
-	}
-	at, ok := al.Type().Underlying().(*types.Pointer).Elem().Underlying().(*types.Array)
-	if !ok {
-		return nil
-	}
+	at := al.Type().Underlying().(*types.Pointer).Elem().Underlying().(*types.Array)
 	if _, isSig := at.Elem().Underlying().(*types.Signature); !isSig {
 		return nil
 	}
@@ -1019,6 +1096,10 @@ func funcTableOf(v ssa.Value) []*ssa.Function {
 				}
 			}
 		case *ssa.UnOp, *ssa.DebugRef:
+		case *ssa.Slice:
+			if !readOnlySlice(r) {
+				return nil
+			}
 		default:
 			return nil
 		}
@@ -1034,18 +1115,11 @@ func funcTableOf(v ssa.Value) []*ssa.Function {
 // funcTableBindings: per slot of a function table (see funcTableOf) the closure that fills it, nil for a
 // plain function.
 func funcTableBindings(v ssa.Value) []*ssa.MakeClosure {
-	ld, ok := v.(*ssa.UnOp)
-	if !ok {
+	al := tableAllocOf(v)
+	if al == nil {
 		return nil
 	}
-	al, ok := ld.X.(*ssa.Alloc)
-	if !ok {
-		return nil
-	}
-	at, ok := al.Type().Underlying().(*types.Pointer).Elem().Underlying().(*types.Array)
-	if !ok {
-		return nil
-	}
+	at := al.Type().Underlying().(*types.Pointer).Elem().Underlying().(*types.Array)
 	out := make([]*ssa.MakeClosure, int(at.Len()))
 	for _, r := range *al.Referrers() {
 		ia, ok := r.(*ssa.IndexAddr)
